@@ -345,7 +345,7 @@ def job(a):
             delays = sorted(set([0.0, 0.25, max(0.0, T - 1.0), T + 0.25])) + [None]
         else:
             delays = [0.0, 1.0, None]
-        kinds = ["pong", "data"]
+        kinds = ["pong", "data", "data+pong"]
         choices = [(d, k) for d in delays for k in (kinds if d is not None else ["-"])]
         for plan in itertools.product(choices, repeat=npings):
             # a plan is only meaningful up to the first reaction that is expected to fail
@@ -383,7 +383,7 @@ def job(a):
                         continue
                     # schedule the reaction
                     at = pt + d
-                    counts = (k == "pong") or (restart and T > 0)
+                    counts = (k in ("pong", "data+pong")) or (restart and T > 0)
                     if T and (not counts or d > T + 1e-9):
                         expected_drop = (pt, pt + T, "late" if counts else "data-does-not-count")
                     while r.now() < at - 1e-9 and r.drop_time is None:
@@ -395,6 +395,10 @@ def job(a):
                         dead = True
                         break
                     if k == "pong":
+                        r.feed_frame(10, payload)
+                    elif k == "data+pong":
+                        # a data frame while the ping is outstanding, then the (late but timely) pong
+                        r.feed_frame(2, b"data")
                         r.feed_frame(10, payload)
                     else:
                         r.feed_frame(2, b"data")
